@@ -289,9 +289,9 @@ fn gen_pools(r: &mut Rng) -> Pools {
     Pools {
         x: pick_n(r, &[-3, -1, 0, 1, 2, 3, 5, 6], nx),
         u: pick_n(r, &[0, 1, 2, 5, 6, 7, 9], nu),
-        f: (0..nf).map(|_| r.pick(&fl).clone()).collect(),
+        f: { let only_flt = r.chance(1, 3); (0..nf).map(|_| loop { let v = r.pick(&fl).clone(); if !only_flt || matches!(v, Val::Flt(_)) { break v; } }).collect() },
         s: (0..ns).map(|_| { let i = if r.chance(4, 5) { r.below(7) } else { r.below(ss.len() as u64) }; ss[i as usize].to_string() }).collect(),
-        t: pick_n(r, &[T0, T0 + 100, T0 + 3600, T0 + 86_400, T0 + 90_000, T0 + 200_000, T0 + 13], nt),
+        t: { let mut t = pick_n(r, &[T0, T0 + 100, T0 + 3600, T0 + 86_400, T0 + 90_000, T0 + 200_000, T0 + 13], nt); if r.chance(1, 6) { t.push(-5); } t },
         o: pick_n(r, &[-2, 0, 3, 4], 2),
     }
 }
@@ -319,7 +319,8 @@ fn gen_lit(r: &mut Rng, sch: &[Field], rows: &[Row], f: usize, st: &mut Stream) 
             else if x < 60 { st.tally("lit:neighbour"); Lit::Int(base + if r.chance(1, 2) { 1 } else { -1 }) }
             else if x < 68 { st.tally("lit:absent"); Lit::Int(100) }
             else if x < 78 { st.tally("lit:negative"); Lit::Int(-1 - r.below(3) as i64) }
-            else if x < 92 { st.tally("lit:float"); if r.chance(1, 2) { Lit::Flt(base as f64) } else { Lit::Flt(base as f64 + 0.5) } }
+            else if x < 86 { st.tally("lit:float"); if r.chance(1, 2) { Lit::Flt(base as f64) } else { Lit::Flt(base as f64 + 0.5) } }
+            else if x < 94 { st.tally("lit:present"); Lit::Int(base) }
             else { st.tally("lit:other-kind(string)"); Lit::Str(base.to_string(), false) }
         }
         Kind::Float => {
@@ -486,6 +487,7 @@ fn leaf_class(sch: &[Field], f: usize, op: Op, l: &Lit, in_list: bool, list_all_
     }
     // a zone dropped by a leaf matters only if this row satisfies the leaf
     if loc == Loc::Zone && want == Some(true) && !zone_kept(&(f, op, l.clone()), false) { return Some("leaf-zone-pruned"); }
+    let _ = want;
     None
 }
 
@@ -730,7 +732,8 @@ fn classify(st: &State, m: &Expr, got: &Answer, missing: &[i64], extra: &[i64]) 
             if let Expr::Not(_) = m {
                 if is_missing && loc == Loc::Zone && !in_cand(st, j, z, false, m) { c = "not-over-mixed-zone".into(); break; }
             }
-            let zk = |leaf: &(usize, Op, Lit), _: bool| -> bool { loc != Loc::Zone || leaf_sel(st, j, leaf.0, leaf.1, &leaf.2).1.contains(&z) };
+            // a pruned zone can only explain a *missing* key
+            let zk = |leaf: &(usize, Op, Lit), _: bool| -> bool { !is_missing || loc != Loc::Zone || leaf_sel(st, j, leaf.0, leaf.1, &leaf.2).1.contains(&z) };
             let lc = classify_row(&st.sch, m, row, loc, &zk);
             if lc == "leaf-zone-pruned" {
                 if !is_missing { continue; }
@@ -739,13 +742,19 @@ fn classify(st: &State, m: &Expr, got: &Answer, missing: &[i64], extra: &[i64]) 
                 for (f, op, l) in ls {
                     let (strat, sel, _) = leaf_sel(st, j, f, op, &l);
                     if sel.contains(&z) { continue; }
+                    let zone_vals: Vec<&Val> = st.segs[j].zones.iter().filter(|zz| zz.0 == z).flat_map(|zz| zz.1.iter().map(|k| &st.rows[st.by_key[k]].vals[f])).collect();
+                    let zone_has_negative = zone_vals.iter().any(|v| matches!(v, Val::Int(i) if *i < 0));
+                    let row_fractional = matches!(&row.vals[f], Val::Flt(x) if x.fract() != 0.0);
                     c = match (strat, op) {
                         (Strat::Zxf | Strat::Xf, Op::Neq) => "neq-under-xor-strategy",
                         (Strat::Zxf | Strat::Xf, o) if o.is_range() => "range-under-xor-strategy",
                         (Strat::TemporalRange, Op::Neq) => "neq-under-temporal-strategy",
                         (Strat::EnumBitmap, _) if !matches!((&st.sch[f].kind, &l), (Kind::Enum(vs), Lit::Str(x, _)) if vs.contains(x)) => "enum-unknown-variant-no-zones",
+                        // C16-pruner-negative-literal / C16-pruner-negative-zone: same root causes, seen end to end
                         (Strat::TemporalEq | Strat::TemporalRange, _) if matches!(l, Lit::Int(i) if i < 0) => "pruner-negative-literal",
-                        (Strat::Surf, _) => "surf-lane-mix",
+                        (Strat::TemporalEq | Strat::TemporalRange, _) if zone_has_negative => "pruner-negative-zone",
+                        // C08-surf-lane-mix: fractional float (f64 lane) against an integer literal (i64 lane)
+                        (Strat::Surf, _) if row_fractional && matches!(l, Lit::Int(_)) => "surf-lane-mix",
                         _ => "-",
                     }.to_string();
                     break;
